@@ -71,8 +71,21 @@ pub fn classify_err(e: &Error) -> ErrClass {
     }
 }
 
+/// Every VM the harness drives has the heap audit attached to *natural* collections too: a change
+/// that corrupts the heap is then reported (as a panic outcome carrying the first broken
+/// invariant) at the first collection, instead of crashing the harness later on a dangling cell.
+pub fn install_default_audit() {
+    marwood::vm::verif::set_after_gc(Some(Box::new(|vm| {
+        let a = crate::audit::audit(vm);
+        if let Some(p) = a.problems.first() {
+            panic!("heap audit failed after a collection: {}", p);
+        }
+    })));
+}
+
 impl Impl {
     pub fn new() -> Impl {
+        install_default_audit();
         let log = Rc::new(RefCell::new(vec![]));
         let mut vm = Vm::new();
         vm.set_system_interface(Box::new(Recorder { log: log.clone() }));
